@@ -393,12 +393,11 @@ func propRejected(t *rapid.T) {
 		ev.Class("discard:baseline-rejected")
 		t.Skip("baseline does not compile")
 	}
-	start := rapid.IntRange(0, len(meta.Rules)-1).Draw(t, "rule")
 	var b *meta.Breaking
-	for k := 0; k < len(meta.Rules) && b == nil; k++ {
-		rule := meta.Rules[(start+k)%len(meta.Rules)]
+	for _, rule := range rapid.Permutation(meta.Rules).Draw(t, "rules") {
 		if bb, ok := f.Break(t, rule, excluded); ok {
 			b = bb
+			break
 		}
 	}
 	if b == nil {
